@@ -190,8 +190,12 @@ class C09(BaseCheck):
     delta = rng.choice([0.25, 0.5, 1.0])
     first_down = rng.random() < 0.3
     down_mode = rng.choice(['refuse', 'blackhole'])
+    # Thrift stack: in some cases a bounded connection pool, so that requests can be waiting in the
+    # pool at the instant the endpoint's connection dies
+    bounded = kind == 'thrift' and rng.random() < 0.4
+    pool = {'min_watermark': rng.choice([0, 1]), 'max_watermark': rng.choice([1, 1, 2]), 'max_queue_len': 64} if bounded else None
     w = StackWorld(env, rng, kind=kind, n_eps=1, balancer=rng.choice(['aperture', 'heap']), timeout=1.0,
-                   open_timeout=0 if first_down else None, policy=servers.DefaultPolicy(0.002),
+                   open_timeout=0 if first_down else None, policy=servers.DefaultPolicy(0.002), pool=pool,
                    resurrector={'initial_wait_interval': init, 'max_wait_interval': mx, 'backoff_exponent': ex},
                    server_modes=[down_mode if first_down else 'up'],
                    connect_latency=rng.choice([0.0005, 0.01, 0.1]))
@@ -216,6 +220,13 @@ class C09(BaseCheck):
         tick(rng.randint(2, 12))
         env.advance(rng.random() * delta)      # phase relative to traffic
         mode = rng.choice(['refuse', 'blackhole'])
+        if bounded and rng.random() < 0.7:
+          # a burst just before the connection dies: some of these are queued in the pool then
+          classes.add('waiters-at-outage')
+          for _ in range(rng.choice([2, 3, 5])):
+            w.call('echo', None, timeout=1.0)
+          if rng.random() < 0.5:
+            env.advance(0.0005)
         srv.sim.mode = mode
         for c in srv.sim.conns:
           if not c.client_closed:
@@ -306,7 +317,10 @@ class C09(BaseCheck):
       # (b) back-off between reconnect attempts while continuously unreachable
       gaps = [failed[i + 1][0] - failed[i][2] for i in range(len(failed) - 1)]
       if ff_start is not None and len(failed) >= 2:
-        known = [a for a in failed if a[0] >= ff_start - EPS]
+        # the retry schedule is the resurrector's; a connection the request path asks for on its own
+        # (a pool growing for a request that was already waiting, a transport re-establishing itself
+        # after a timeout) is not part of it
+        known = [a for a in failed if a[0] >= ff_start - EPS and a[3] == 'resurrector']
         gaps = [known[i + 1][0] - known[i][2] for i in range(len(known) - 1)]
         retries_total += len(known)
         for i, gp in enumerate(gaps):
